@@ -9,7 +9,7 @@ META = {
                   "where the waiter's reply is ready while it polls an empty stream: serve releases the receive lock and notifies before it dispatches) and c14_only_this_window "
                   "(in every reachable state a waiter whose reply has been processed and that cannot move is either polling an empty stream itself or sleeping behind a thread "
                   "that holds / has just released the receive lock). The check replays random schedules of the real code under a virtual clock and reports any lateness; the two "
-                  "window shapes are the known finding F5, anything else is a new violation.",
+                  "window shapes are the known finding F5, anything else is a new violation. The schedule of the refutation theorem itself is also driven deterministically on the real code (witness phase).",
     "level_note": "Trusted: Coq kernel, pygen, extraction+driver, the virtual Lock/Condition/poll/clock (harness/vsched.py). Lateness is measured in virtual time; wall-clock "
                   "scheduling is outside the model.",
     "technique": "Coq: refutation by explicit schedule + invariant-based classification of every blocked waiter; virtual-clock schedule replay of the real code",
